@@ -2,7 +2,7 @@
 from common import RuleResult, Violation
 from roles import holds_no_user_value
 from facts import ty_walk
-from interp import loc_s, val_contains
+from interp import loc_s, val_contains, Undecided
 from rules_ts import analysed_fns
 from rules_ts2 import call_sites, _count_op
 from rules_struct import vid, _calls, _floc, rawlock_impl_fns, leaf_locks, COLLS, SORTING
@@ -22,44 +22,69 @@ def _flag_field(ctx, adt):
     return None
 
 
+def drop_glue_outcomes(ctx, adt_path):
+    """what dropping a value of the crate type `adt_path` does: its Drop impl (if any) and the drop glue of its fields, whatever
+    private sentinel types carry the behaviour; [(kind, events)] for every outcome"""
+    from interp import State
+    I = ctx.M["make"]()
+    a = ctx.F.adts[adt_path]
+    t = {"k": "adt", "path": a["path"], "local": True, "s": a["path"],
+         "args": [{"k": "region", "r": {"k": "erased"}} if g["kind"] == "lifetime" else
+                  {"k": "param", "name": g["name"], "index": g["index"], "s": g["name"]} for g in a["generics"] if g["kind"] != "const"]}
+    st = State()
+    I.oploc["a1"] = ("O", "a1", ())
+    I.optype["a1"] = t
+    fn = {"path": "<drop glue of %s>" % adt_path, "span": a["span"], "id": "<glue>", "mir": {"locals": []}, "predicates": []}
+    outs = I.drop_opaque(st, ("op", "a1", None), t, fn, None, 0)
+    return [(kind, s.events) for kind, s in outs]
+
+
 def rule_F1(ctx, R):
     res = RuleResult("F1", "PoisonRef sets its flag exactly when dropped during unwinding; every PoisonRef is built with the flag of the "
                            "Poisonable whose lock its guard belongs to")
     a = ctx.F.adts.get(PREF)
-    if not a or not a.get("drop_fn"):
-        res.bad(Violation("F1", PREF, "drop", "PoisonRef has no Drop impl: a panic while a Poisonable guard is alive never poisons"))
+    if not a:
+        res.undecided(PREF, "anchor", "type not found")
         res.need(3, "PoisonRef facts")
         return res
-    ff = _flag_field(ctx, PREF)
-    dfn = ctx.F.fn(a["drop_fn"])
-    paths, err, I = ctx.paths(dfn)
+    # the drop glue of PoisonRef (its own Drop impl or that of a private field, e.g. a poison-on-unwind sentinel)
+    try:
+        outs = drop_glue_outcomes(ctx, PREF)
+        err = None
+    except Undecided as e:
+        outs, err = [], str(e)
     if err:
-        res.undecided(dfn["path"], "analysis", err, *_floc(dfn))
+        res.undecided(PREF, "analysis", err, a["span"]["file"], a["span"]["line"])
     else:
         bad = None
         seen = set()
-        for p in paths:
-            if p.kind != "ret":
-                continue
-            pk = p.ev("PANICKING")
-            sets = p.ev("FLAG_SET")
+        if not any(e["k"] == "PANICKING" for kind, evs in outs for e in evs):
+            bad = "never consults thread::panicking(): a panic while a Poisonable guard is alive never poisons"
+        for kind, evs in outs:
+            if bad:
+                break
+            pk = [e for e in evs if e["k"] == "PANICKING"]
+            sets = [e for e in evs if e["k"] == "FLAG_SET"]
+            gd = [e for e in evs if e["k"] == "DROPP"]
             if len(pk) != 1:
                 bad = "thread::panicking() consulted %d times" % len(pk)
                 break
             out = pk[0].get("outcome")
             seen.add(out)
-            if out is True and (len(sets) != 1 or sets[0]["recv"] != "a1.*.%d.*" % ff):
-                bad = "does not poison its own flag when dropped during a panic (%s)" % [s["recv"] for s in sets]
+            if out is True and (len(sets) != 1 or not (sets[0]["recv"].startswith("a1.") and sets[0]["recv"].endswith(".*"))):
+                bad = "does not poison its own flag when dropped during a panic (%s)" % [x["recv"] for x in sets]
+            elif out is True and gd and sets[0]["i"] > gd[0]["i"]:
+                bad = "poisons only after the inner guard has been released (a waiter can get the lock and still see it unpoisoned)"
             if out is False and sets:
                 bad = "poisons although the thread is not panicking"
-            if p.ev("FLAG_CLEAR"):
+            if any(e["k"] == "FLAG_CLEAR" for e in evs):
                 bad = "clears the flag"
         if not bad and seen != {True, False}:
-            bad = "Drop does not distinguish panicking from normal drops (%s)" % seen
+            bad = "drop does not distinguish panicking from normal drops (%s)" % seen
         if bad:
-            res.bad(Violation("F1", dfn["path"], "drop", "PoisonRef::drop " + bad, *_floc(dfn)))
+            res.bad(Violation("F1", PREF, "drop", "dropping a PoisonRef " + bad, a["span"]["file"], a["span"]["line"]))
         else:
-            res.ok(dfn["path"])
+            res.ok("drop glue of " + PREF)
     # construction sites: every reachable function that returns a PoisonRef (anywhere inside its result), with the private
     # constructor and keyed helpers inlined - and Poisonable's own guard()/read_guard() impls inlined into lock()/read() & co
     from rules_ts import entry_fns
@@ -91,8 +116,21 @@ def rule_F1(ctx, R):
             visit(p.value)
             for r in refs:
                 found = True
-                g = r[4][0]
-                fl = r[4][ff] if ff < len(r[4]) else None
+                # wherever they sit inside the PoisonRef (directly or inside a private sentinel field): the guard is the
+                # result of a guard()/read_guard() call, the flag is a reference to a flag field of a Poisonable
+                subs = []
+
+                def sub(v):
+                    subs.append(v)
+                    if v[0] == "agg":
+                        for x in v[4]:
+                            sub(x)
+                for x in r[4]:
+                    sub(x)
+                g = next((x for x in subs if x[0] == "op" and x[2] and x[2][0] == "assume"), r[4][0] if r[4] else ("const", None))
+                fl = next((x for x in subs if x[0] == "ref" and loc_s(x[1]).endswith(".%d" % pf)), None)
+                if fl is None:
+                    fl = next((x for x in subs if x[0] == "ref"), None)
                 grecv = g[2][1] if g[0] == "op" and g[2] and g[2][0] == "assume" else None
                 if grecv is None:
                     bad = "guard inside PoisonRef is not the result of a guard()/read_guard() call"
